@@ -673,10 +673,26 @@ class IfaceExecutor(X.UnitsExecutor):
             out = []
             for (s, v) in self.ev(n.value, st):
                 items = self.concrete_items(s, v)
-                if items is None:
-                    raise Unsupported(f"{self.loc(n)} yield from a symbolic iterable")
-                s.yielded = s.yielded + list(items)
                 chk = getattr(self.contract, "yield_check", None)
+                if items is None:
+                    # round 8: `yield from xs` over a symbolic-length list (= `for x in xs: yield x`): the yield obligation for an
+                    # arbitrary element xs[j], 0 <= j < len(xs), on a fork (the continuing path keeps the empty case)
+                    try:
+                        view = self.seq_view(s, v) if isinstance(v, (VRef, VSeq)) else None
+                    except Unsupported:
+                        view = None
+                    if view is None:
+                        raise Unsupported(f"{self.loc(n)} yield from a symbolic iterable")
+                    length, elem = view
+                    j = z3.Int(fresh_name("yf"))
+                    s2 = s.fork().assume(z3.And(j >= 0, j < length))
+                    s.ghost["yield_count_unknown"] = True
+                    if chk is not None and self.inline_depth == 0:
+                        goal, note = chk(self, s2, elem(j))
+                        self.add_vc("yields", getattr(self.contract, "yield_label", "element-kind"), s2.pc, goal, note=note, loc=self.loc(n))
+                    out.append((s, NONE))
+                    continue
+                s.yielded = s.yielded + list(items)
                 for v in items:
                     if chk is not None and self.inline_depth == 0:
                         goal, note = chk(self, s, v)
